@@ -1256,8 +1256,9 @@ class Parameter(Variable):
                 if ti.size == 0:  # If all times were removed
                     return
             else:
-                # Dealing with a scalar ti
-                if (self.t[ti] >= self.skip_function[0]) and (self.t[ti] <= self.skip_function[1]):
+                # Dealing with a scalar ti. A derivative parameter still needs its rate of change to be evaluated, because
+                # the value at the first time point after the excluded range is stepped forward from it
+                if (self.t[ti] >= self.skip_function[0]) and (self.t[ti] <= self.skip_function[1]) and not self.derivative:
                     return
 
         dep_vals = dict.fromkeys(self.deps, 0.0)
@@ -2660,7 +2661,9 @@ class Model:
             for par in pars:
                 if par.derivative and ti < len(self.t) - 1:
                     # If derivative parameter, then perform an Euler forward step before constraining
-                    par[ti + 1] = par[ti] + par._dx * self.dt
+                    # unless the next value is supplied by a parameter scenario (function suspended there), in which case it is kept
+                    if par.skip_function is None or (self.t[ti + 1] < par.skip_function[0]) or (self.t[ti + 1] > par.skip_function[1]):
+                        par[ti + 1] = par[ti] + par._dx * self.dt
                     par.constrain(ti + 1)
                 else:
                     par.constrain(ti)
